@@ -49,6 +49,13 @@ func mutateWire(rng *rand.Rand, t wireType, enc []byte) ([]byte, string) {
 		case "str", "bytes", "bitset", "palcont":
 			_, n, ok := fvGet(out)
 			if t.T == "palcont" {
+				if rng.Intn(3) == 0 {
+					// the data array one long shorter / longer than the width needs, everything else intact (the stream
+					// stays aligned): only the size rule can refuse it - whatever the destination held before
+					if m, ok := palcontResize(out, []int{-1, 1, -2}[rng.Intn(3)]); ok {
+						return m, "data-array-length"
+					}
+				}
 				if len(out) > 1 && rng.Intn(2) == 0 {
 					out[0] = byte([]int{0, 1, 4, 5, 8, 9, 15, 255}[rng.Intn(8)])
 					return out, "bits-byte"
@@ -222,6 +229,51 @@ func palcontType(kind string) wireType {
 }
 
 // validPalcont returns the real encoding of a container holding `distinct` different values.
+// palcontResize walks a valid paletted-container encoding (bits byte, palette, data array) and changes the number
+// of longs of the data array by delta, declared length and longs together.
+func palcontResize(enc []byte, delta int) ([]byte, bool) {
+	if len(enc) < 2 {
+		return nil, false
+	}
+	p := 1
+	bits := int(enc[0])
+	rd := func() (int32, bool) {
+		v, n, ok := fvGet(enc[p:])
+		p += n
+		return v, ok
+	}
+	switch {
+	case bits == 0:
+		if _, ok := rd(); !ok {
+			return nil, false
+		}
+	case bits <= 8: // indirect (blocks up to 8, biomes up to 3): palette length, entries
+		n, ok := rd()
+		if !ok || n < 0 || n > 4096 {
+			return nil, false
+		}
+		for i := int32(0); i < n; i++ {
+			if _, ok := rd(); !ok {
+				return nil, false
+			}
+		}
+	}
+	at := p
+	l, ok := rd()
+	if !ok || int(l)*8 != len(enc)-p || int(l)+delta < 0 {
+		return nil, false
+	}
+	out := append([]byte{}, enc[:at]...)
+	out = fvPut(out, l+int32(delta))
+	body := enc[p:]
+	if delta < 0 {
+		body = body[:len(body)+8*delta]
+	} else {
+		body = append(append([]byte{}, body...), make([]byte, 8*delta)...)
+	}
+	return append(out, body...), true
+}
+
 func validPalcont(rng *rand.Rand, kind string, distinct int) []byte {
 	var buf bytes.Buffer
 	if kind == "blocks" {
@@ -576,7 +628,7 @@ func runC08(env *vk.Env) {
 		case i%10 == 0:
 			kind := []string{"blocks", "biomes"}[rng.Intn(2)]
 			t = palcontType(kind)
-			enc = validPalcont(rng, kind, []int{0, 1, 2, 5, 17, 40, 300}[rng.Intn(7)])
+			enc = validPalcont(rng, kind, []int{0, 1, 2, 5, 17, 40, 40, 300}[rng.Intn(8)])
 		case i%10 == 1: // a section: block count + two containers
 			t = wireType{T: "tuple", Es: []wireType{{T: "i16"}, palcontType("blocks"), palcontType("biomes")}}
 			enc = append([]byte{0, 5}, validPalcont(rng, "blocks", []int{0, 3, 20}[rng.Intn(3)])...)
